@@ -186,7 +186,7 @@ fn run_damaged(h: &History, flips: &[u16], cx: &mut Cx) -> CaseResult {
                     let dest = cx.dir("r").join(format!("d{n}"));
                     let r = ops::restore(&w.arch, &None, &dest, &Sel::Band(*id), None, &[], false);
                     // directories that the version does not list are created with the current time
-                    let diff = tree::first_diff(before, &tree::snapshot(&dest), CmpOpts { root_meta: false, dir_mtime: false, identity: false });
+                    let diff = tree::first_diff(before, &tree::snapshot(&dest), CmpOpts { root_meta: false, dir_mtime: false, identity: false, mtime: true });
                     let same = r.panic.is_none()
                         && r.result.is_ok()
                         && r.reported_error() == *before_reported
